@@ -30,6 +30,10 @@ type Op struct {
 	Wrap       int  `json:"wrap,omitempty"` // 0 none, 1 Session(&Session{}), 2 WithContext(ctx)
 	WrapPos    int  `json:"wrap_pos,omitempty"`
 
+	// Extra > 0: a further condition call between Where(cond) and the rest of
+	// the chain, or a grouped spelling of the condition (see extraName).
+	Extra int `json:"extra,omitempty"`
+
 	// Fault k > 0: the k-th statement the operation sends to the driver fails
 	// with an injected error instead of executing (single transient fault).
 	Fault int `json:"fault,omitempty"`
@@ -57,6 +61,30 @@ var assignSet = []Content{
 	{{"age", 9}},
 	{{"name", "c"}},
 	{{"age", 0}}, // map / kv forms only (an all-zero struct carries nothing)
+}
+
+// extras: alternatives / negations / groups around the condition. The new
+// record is built from the condition of the Where call only; what stands
+// under Or / Not selects rows but is never copied into the record.
+const (
+	xNone     = 0
+	xOrMap    = 1 // .Or(map{name:"b"})
+	xOrStruct = 2 // .Or(T{Name:"b"})
+	xOrString = 3 // .Or("name = ?", "b")
+	xNotMap   = 4 // .Not(map{age:7})
+	xGroupOr  = 5 // Where(db.Where(cond).Or(map{name:"b"}))   instead of Where(cond)
+	xGroupAnd = 6 // Where(db.Where(first field).Where(rest))   instead of Where(cond)
+	numExtras = 7
+)
+
+func (op Op) extraMatches(r Row, condMatch bool) bool {
+	switch op.Extra {
+	case xOrMap, xOrStruct, xOrString, xGroupOr:
+		return condMatch || r.Name == "b"
+	case xNotMap:
+		return condMatch && r.Age != 7
+	}
+	return condMatch
 }
 
 var finName = []string{"FirstOrInit", "FirstOrCreate"}
@@ -149,6 +177,9 @@ func (op Op) calls() []string {
 	if !op.CondInline {
 		c = append(c, "where")
 	}
+	if op.Extra >= xOrMap && op.Extra <= xNotMap {
+		c = append(c, "extra")
+	}
 	if op.Attrs > 0 {
 		c = append(c, "attrs")
 	}
@@ -223,7 +254,21 @@ func (op Op) Label(m int) string {
 			w(i)
 			switch c {
 			case "where":
-				parts = append(parts, "Where("+fmtArgs(m, condSet[op.Cond], op.CondForm)+")")
+				switch op.Extra {
+				case xGroupOr:
+					parts = append(parts, "Where(db.Where("+fmtArgs(m, condSet[op.Cond], op.CondForm)+").Or(map{name:\"b\"}))")
+				case xGroupAnd:
+					c := condSet[op.Cond]
+					g := "db.Where(" + fmtArgs(m, c[:1], op.CondForm) + ")"
+					if len(c) > 1 {
+						g += ".Where(" + fmtArgs(m, c[1:], op.CondForm) + ")"
+					}
+					parts = append(parts, "Where("+g+")")
+				default:
+					parts = append(parts, "Where("+fmtArgs(m, condSet[op.Cond], op.CondForm)+")")
+				}
+			case "extra":
+				parts = append(parts, []string{"", `Or(map{name:"b"})`, "Or(" + modelName[m] + `{Name:"b"})`, `Or("name = ?","b")`, `Not(map{age:7})`}[op.Extra])
 			case "attrs":
 				parts = append(parts, "Attrs("+fmtArgs(m, attrSet[op.Attrs], op.AttrsForm)+")")
 			case "assign":
@@ -318,6 +363,16 @@ func alphabet(m int) (core, wrapped []Op) {
 						}
 						add(o)
 					}
+				}
+			}
+		}
+	}
+	// P1 extras block: Or / Not / grouped spellings around every condition
+	for fin := 0; fin < 2; fin++ {
+		for c := range condSet {
+			for form := fStruct; form <= fMap; form++ {
+				for x := 1; x < numExtras; x++ {
+					add(Op{Kind: "first", Fin: fin, Cond: c, CondForm: form, Extra: x, Attrs: 1, AttrsForm: fMap})
 				}
 			}
 		}
@@ -525,8 +580,33 @@ func (w *worker) exec(m int, before State, op Op) (out Outcome) {
 				wrap(i)
 				switch c {
 				case "where":
-					a := condSet[op.Cond].args(m, op.CondForm)
-					chain = chain.Where(a[0], a[1:]...)
+					c := condSet[op.Cond]
+					a := c.args(m, op.CondForm)
+					switch op.Extra {
+					case xGroupOr:
+						chain = chain.Where(db.Where(a[0], a[1:]...).Or(map[string]interface{}{"name": "b"}))
+					case xGroupAnd:
+						a1 := c[:1].args(m, op.CondForm)
+						g := db.Where(a1[0], a1[1:]...)
+						if len(c) > 1 {
+							a2 := c[1:].args(m, op.CondForm)
+							g = g.Where(a2[0], a2[1:]...)
+						}
+						chain = chain.Where(g)
+					default:
+						chain = chain.Where(a[0], a[1:]...)
+					}
+				case "extra":
+					switch op.Extra {
+					case xOrMap:
+						chain = chain.Or(map[string]interface{}{"name": "b"})
+					case xOrStruct:
+						chain = chain.Or(structOf(m, Content{{"name", "b"}}))
+					case xOrString:
+						chain = chain.Or("name = ?", "b")
+					case xNotMap:
+						chain = chain.Not(map[string]interface{}{"age": 7})
+					}
 				case "attrs":
 					chain = chain.Attrs(attrSet[op.Attrs].args(m, op.AttrsForm)...)
 				case "assign":
@@ -703,7 +783,7 @@ func ref(m int, st State, op Op) Expect {
 		var matches []int
 		hiddenMatch := false
 		for i, r := range st {
-			if r.matches(cond) {
+			if op.extraMatches(r, r.matches(cond)) {
 				if r.Del {
 					hiddenMatch = true
 				} else {
@@ -764,6 +844,9 @@ func ref(m int, st State, op Op) Expect {
 		}
 		if op.Fin == 0 {
 			ex.NoWrite = true
+		}
+		if op.Extra > 0 {
+			ex.Class += "+or-not-group"
 		}
 	}
 	ex.After = after
